@@ -59,35 +59,77 @@ def make_wf(field, kind, wavelength, stokes):
 
 
 def grid_bytes(grid):
-    parts = [np.ascontiguousarray(np.asarray(c, dtype=float)).tobytes() for c in grid.coords]
+    """Bytes that determine the grid: the defining arrays of its coordinates (delta/dims/zero of a regular grid, the
+    per-axis arrays of a separated grid, the point arrays of an unstructured grid) and its weights (materialised)."""
+    c = grid.coords
+    d = c.__dict__
+    if 'delta' in d and 'dims' in d and 'zero' in d:
+        arrs = [d['delta'], d['dims'], d['zero']]
+    elif 'separated_coords' in d:
+        arrs = list(d['separated_coords'])
+    elif 'coords' in d:
+        arrs = list(d['coords'])
+    else:
+        arrs = list(c)
+    parts = [type(c).__name__.encode()] + [np.ascontiguousarray(np.asarray(a, dtype=float)).tobytes() for a in arrs]
     w = grid.weights
     parts.append(np.ascontiguousarray(np.asarray(w, dtype=float)).tobytes())
     return b'|'.join(parts)
 
 
-def snapshot(wf, base_field):
+def raw_arrays(obj):
+    """Digest of every array / scalar reachable from `obj` through __dict__, containers, and the `.grid` of a Field —
+    read WITHOUT calling any property (so nothing lazy is materialised). path -> digest."""
+    snap = state_snapshot(obj, deep_grids=True)
+    return {path: dig for path, (o, dig, owners, arr) in snap.items() if not path.endswith(('#attrs',))}
+
+
+def snapshot(wf, base_field, lazy=False, deep=False):
+    """What 'the wavefront passed in' consists of. With lazy=True the quantities that materialise caches when read
+    (grid weights, total power) are read from a deep copy, so the input itself stays as the caller built it."""
+    with warnings.catch_warnings():
+        warnings.simplefilter('ignore')
+        return _snapshot(wf, base_field, lazy, deep)
+
+
+def _snapshot(wf, base_field, lazy, deep):
     ef = wf.electric_field
+    sem = copy.deepcopy(wf) if lazy else wf
     s = {
         'field-values': np.asarray(ef).tobytes(),
         'field-dtype': str(ef.dtype),
         'field-shape': tuple(ef.shape),
         'field-object': id(ef),
         'grid-identity': id(ef.grid),
-        'grid-contents': grid_bytes(ef.grid),
+        'grid-contents': grid_bytes(sem.electric_field.grid),
         'wavelength': (type(wf.wavelength).__name__, repr(wf.wavelength)),
         'stokes-vector': None if wf.input_stokes_vector is None else (id(wf.input_stokes_vector), np.asarray(wf.input_stokes_vector).tobytes()),
         'attributes': tuple(sorted(wf.__dict__.keys())),
         'source-field-values': np.asarray(base_field).tobytes(),
         'source-field-grid': id(base_field.grid),
     }
-    with warnings.catch_warnings():
-        warnings.simplefilter('ignore')
-        s['total-power'] = repr(float(np.real(wf.total_power)))
+    if deep:
+        with warnings.catch_warnings():
+            warnings.simplefilter('ignore')
+            s['total-power'] = repr(float(np.real(sem.total_power)))
+        for path, dig in raw_arrays(wf).items():
+            s['reachable:' + path] = dig
     return s
 
 
 def snap_diff(a, b):
-    return [k for k in a if a[k] != b[k]]
+    res = []
+    for k in a:
+        if k.startswith('reachable:'):
+            # a cache that was empty before and is filled now (lazily computed weights) is not a modification of the
+            # input; its VALUE is covered by grid-contents / total-power, which are compared against a deep copy
+            if a[k] == repr(None):
+                continue
+            if k not in b or a[k] != b[k]:
+                res.append('reachable-array ' + k[len('reachable:'):].rsplit('.', 1)[-1])
+        elif a[k] != b[k]:
+            res.append(k)
+    return res
 
 
 def call(el, direction, wf, trace=None):
@@ -182,7 +224,7 @@ def _digest(b):
     return hashlib.blake2b(b, digest_size=12).digest()
 
 
-def state_snapshot(el):
+def state_snapshot(el, deep_grids=False):
     """path -> (object, digest, owners, is_array). `owners` = ((family, class name, attribute), ...) for every attribute
     step of the path. The objects are kept alive by the snapshot so that identity comparisons are meaningful."""
     import hcipy
@@ -193,6 +235,8 @@ def state_snapshot(el):
     def walk(obj, path, owners, depth):
         if isinstance(obj, np.ndarray):
             out[path] = (obj, (str(obj.dtype), obj.shape, _digest(np.ascontiguousarray(obj).tobytes())), owners, True)
+            if deep_grids and isinstance(getattr(obj, '__dict__', None), dict) and 'grid' in obj.__dict__:
+                walk(obj.__dict__['grid'], path + '.grid', owners, depth + 1)
             return
         if obj is None or isinstance(obj, (bool, int, float, complex, str, bytes, np.generic)):
             out[path] = (obj, repr(obj), owners, False)
@@ -203,7 +247,7 @@ def state_snapshot(el):
         if scipy.sparse.issparse(obj):
             out[path] = (obj, ('sparse', obj.shape, _digest(np.ascontiguousarray(obj.data).tobytes())), owners, True)
             return
-        if isinstance(obj, hcipy.Grid):
+        if isinstance(obj, hcipy.Grid) and not deep_grids:
             out[path] = (obj, ('grid', _digest(grid_bytes(obj))), owners, True)
             return
         if isinstance(obj, np.random.Generator):
@@ -345,14 +389,24 @@ def run_case(entry, el, case, fresh_el=None, track=False):
     tag = '%s %s %s' % (cname, direction, kind)
     bad = []
     obs = {}
-    E1 = registry.make_field(rng, grid, kind, sparse=case.get('sparse', False))
-    E2 = registry.make_field(rng, grid, kind)
+    lazy = bool(case.get('lazy_grid', False))
+    if lazy:
+        # every wavefront on its own, equal, freshly built grid object whose automatic weights are not computed yet
+        g1, g2, g3 = registry.fresh_grid(grid), registry.fresh_grid(grid), registry.fresh_grid(grid)
+    else:
+        # the registry's grid object itself, weights materialised (as after reading wf.total_power)
+        g1 = g2 = g3 = grid
+        with warnings.catch_warnings():
+            warnings.simplefilter('ignore')
+            grid.weights
+    E1 = registry.make_field(rng, g1, kind, sparse=case.get('sparse', False))
+    E2 = registry.make_field(rng, g2, kind)
     a = complex(registry.dyadic_scalar(rng, -2, 2, 4), registry.dyadic_scalar(rng, -2, 2, 4))
     if a == 0:
         a = 1.5 - 0.5j
     stokes = registry.STOKES[int(rng.integers(len(registry.STOKES)))]
     import hcipy
-    E3 = hcipy.Field(a * np.asarray(E1) + np.asarray(E2), grid)            # exact: dyadic, few bits
+    E3 = hcipy.Field(a * np.asarray(E1) + np.asarray(E2), g3)            # exact: dyadic, few bits
     E1_keep = np.array(E1, copy=True)
     wf1 = make_wf(E1, kind, wl, stokes)
     wf2 = make_wf(E2, kind, wl, stokes)
@@ -360,6 +414,15 @@ def run_case(entry, el, case, fresh_el=None, track=False):
 
     def fail(clause, what):
         bad.append(('%s %s' % (clause, tag), '%s: %s [%s, wavelength %g]' % (clause, what, entry.name, wl)))
+
+    def guarded(element, wf, base, stage, deep=False, trace=None):
+        """One call with the input snapshotted before and after (every call of the case, not only the first: an element
+        may touch its input only on a cache miss, or only on a hit)."""
+        b = snapshot(wf, base, lazy, deep)
+        res = call(element, direction, wf, trace)
+        for k in snap_diff(b, snapshot(wf, base, False, deep)):
+            fail('input-modified:' + k, 'the wavefront passed to %s was changed (%s) by the %s' % (direction, k, stage))
+        return res
 
     def state_check(diff, stage):
         """Judge the changes of the element's own state over one call."""
@@ -384,18 +447,14 @@ def run_case(entry, el, case, fresh_el=None, track=False):
 
     # (i) input intact + first result
     s0 = state_snapshot(el) if track else None
-    before = snapshot(wf1, E1)
     trace = []
     try:
-        outs1, multi = call(el, direction, wf1, trace)
+        outs1, multi = guarded(el, wf1, E1, 'first call', deep=True, trace=trace)
     except Exception as ex:     # noqa
         fail('raises', '%s raised %s: %s' % (direction, type(ex).__name__, str(ex)[:120]))
         return bad, obs
-    after = snapshot(wf1, E1)
     o1 = out_arrays(outs1)          # copied now: later calls must not be able to change what we compare
     m1 = out_meta(outs1)
-    for k in snap_diff(before, after):
-        fail('input-modified:' + k, 'the wavefront passed to %s was changed (%s)' % (direction, k))
     if not np.array_equal(np.asarray(E1), E1_keep):
         fail('input-modified:field-values', 'the Field the wavefront was built from was changed')
     if track:
@@ -419,7 +478,7 @@ def run_case(entry, el, case, fresh_el=None, track=False):
 
     # (ii) repeatability: same call again; another wavefront in between; fresh element
     try:
-        outs1b, _ = call(el, direction, wf1)
+        outs1b, _ = guarded(el, wf1, E1, 'second identical call')
         ok, w = same(o1, out_arrays(outs1b), TOL_REP, scale1)
         if not ok or out_meta(outs1b) != m1:
             fail('repeat', 'the same call returned a different result the second time (max diff %.3g)' % w)
@@ -428,18 +487,18 @@ def run_case(entry, el, case, fresh_el=None, track=False):
         if track:
             s2 = state_snapshot(el)
             state_check(state_diff(s1, s2), 'second identical call')
-        outs2, _ = call(el, direction, wf2)
+        outs2, _ = guarded(el, wf2, E2, 'call with another wavefront')
         o2 = out_arrays(outs2)
         ok, w = same(o1, out_arrays(outs1), 0.0, 0.0)
         if not ok:
             fail('result-overwritten', 'a later call (with another wavefront) changed the wavefront returned by an earlier call')
-        outs1c, _ = call(el, direction, wf1)
+        outs1c, _ = guarded(el, wf1, E1, 'third call')
         ok, w = same(o1, out_arrays(outs1c), TOL_REP, scale1)
         if not ok or out_meta(outs1c) != m1:
             fail('history', 'result changed after a call with a different wavefront in between (max diff %.3g)' % w)
         if fresh_el is not None:
             s_used = state_snapshot(el) if track else None
-            outsf, _ = call(fresh_el, direction, wf1)
+            outsf, _ = guarded(fresh_el, wf1, E1, 'first call of a freshly constructed element (cache miss)', deep=True)
             if track:
                 for what_, path, owners in compare_with_fresh(s_used, state_snapshot(fresh_el)):
                     leaf = owners[-1]
@@ -451,7 +510,7 @@ def run_case(entry, el, case, fresh_el=None, track=False):
             if not ok or out_meta(outsf) != m1:
                 fail('fresh-element', 'a freshly constructed element returns a different result (max diff %.3g)' % w)
         # (iii) linearity
-        outs3, _ = call(el, direction, wf3)
+        outs3, _ = guarded(el, wf3, E3, 'call with a*E1+E2')
         o3 = out_arrays(outs3)
     except Exception as ex:     # noqa
         fail('raises', '%s raised %s on a later call: %s' % (direction, type(ex).__name__, str(ex)[:120]))
@@ -975,7 +1034,7 @@ def plan(ctx):
                         for wl in e.wavelengths:
                             idx += 1
                             cases.append({'entry': e.name, 'kind': kind, 'direction': direction, 'wavelength': wl, 'registry': k,
-                                          'reg_seed': reg_seed, 'data_seed': [ctx.seed, 6, 1, idx], 'sparse': bool(r % 2), 'round': r})
+                                          'reg_seed': reg_seed, 'data_seed': [ctx.seed, 6, 1, idx], 'sparse': bool(r % 2), 'lazy_grid': bool(r % 2), 'round': r})
     # widened linearity: per entry x kind x direction, every input structure with (a) a faint term (amplitude ratio
     # <= 2^-17) and (b) a ratio / |a| drawn from the whole range
     wrng = np.random.default_rng([ctx.seed, 6, 2])
@@ -990,8 +1049,11 @@ def plan(ctx):
                             continue
                         if structure == 'own-modes' and e.modes is None:
                             continue
+                        alt_grid = not e.input_grid.is_regular or (e.output_grid is not None and not e.output_grid.is_regular)
                         for j in range(per_structure):
                             idx += 1
+                            if alt_grid and ctx.quick() and j > 0:
+                                continue        # quick tier: the entries on non-regular grids run the faint-term configuration only
                             rexp = RATIO_EXPS_FAINT[int(wrng.integers(len(RATIO_EXPS_FAINT)))] if j % 2 == 0 else \
                                 RATIO_EXPS_ALL[int(wrng.integers(len(RATIO_EXPS_ALL)))]
                             cases.append({'mode': 'wide', 'entry': e.name, 'kind': kind, 'direction': direction,
@@ -1017,6 +1079,15 @@ def run(ctx):
                 'Rule: max|f(aE1+E2) - a f(E1) - f(E2)| <= 1e-6*min(|a f(E1)|, |f(E2)|) + 1e-13*max(|a f(E1)|, |f(E2)|, g*(|a||E1|+|E2|)) '
                 'in max norms, g = largest |f(E)|/|E| seen for that element/direction/kind (>= 1): the residual is judged '
                 'against the SMALLER term, the second summand is the float64 rounding floor of the whole computation; f(0) must be exactly 0. '
+                'INPUT INTACT, widened: every call of a case (first, repeated, other wavefront, a*E1+E2, and the first call of a fresh '
+                'element = cache miss) is bracketed by snapshots of its input: field bytes/dtype/shape/identity, grid identity, the '
+                'defining arrays of the grid coordinates AND its weights, wavelength, Stokes vector, attribute set; first and fresh calls '
+                'additionally total power and the digest of EVERY array reachable from the wavefront object (field, grid coordinate arrays, '
+                'cached _weights, Stokes vector) read without touching any property. Inputs live on regular grids (scalar weight), a '
+                'separated non-uniform grid (lazily computed per-point weight array) and an unstructured grid with explicit per-point '
+                'weights (41 extra registry entries: every element class that accepts such grids, incl. magnifiers and Fraunhofer with a '
+                'non-uniform pupil / focal grid); round 0 uses the shared grid object with weights materialised beforehand, round 1 gives '
+                'every wavefront its own equal grid object whose weights are not computed yet (semantic quantities then read from a deep copy). '
                 'ELEMENT-INTERNAL STATE (round-0 cases): recursive snapshot (every ndarray / sparse matrix / grid / RNG state / scalar '
                 'reachable through __dict__, dicts, lists of the element and the objects it owns; array bytes hashed, objects kept alive '
                 'for identity) before the first call, after it, after a second identical call, and after the whole call sequence; a change '
@@ -1046,7 +1117,7 @@ def run(ctx):
     fresh_done = set()
     requests = []        # (line, kind-of-request, payload)
     denote_done = set()
-    heavy_budget = ctx.scale(64, 600)
+    heavy_budget = ctx.scale(48, 600)
     for case in cases:
         e = by_name[(case['registry'], case['entry'])]
         ekey = (case['registry'], e.name)
@@ -1074,10 +1145,11 @@ def run(ctx):
             continue
         fkey = (case['registry'], e.name, case['kind'], case['direction'], case['wavelength'])
         fresh = None
-        if fkey not in fresh_done:
-            fresh_done.add(fkey)
+        fkey2 = fkey + (bool(case.get('lazy_grid')),)
+        if fkey2 not in fresh_done:
+            fresh_done.add(fkey2)
             fresh = e.factory()
-        bad, obs = run_case(e, el, case, fresh, track=fresh is not None)
+        bad, obs = run_case(e, el, case, fresh, track=fresh is not None and not case.get('lazy_grid'))
         for key, what in bad:
             ctx.violation(key, what, case)
         for verdict, fam, cell, ckind in sorted(obs.get('internal', ())):
@@ -1088,12 +1160,14 @@ def run(ctx):
                 ctx.disagree('C06 internal', {'case': {q: case[q] for q in ('entry', 'kind', 'direction', 'wavelength')},
                                               'impl': 'attribute %s changed (%s) during a call' % (cell, ckind),
                                               'model': 'family %s declares memo=%s scratch=%s' % (fam, list(DECLARED.get(fam, ((), ()))[0]), list(DECLARED.get(fam, ((), ()))[1]))})
-        if fresh is not None:
+        if fresh is not None and not case.get('lazy_grid'):
             ctx.count('state-tracked-cases')
         ctx.count('kind:' + case['kind'])
         ctx.count('direction:' + case['direction'])
         ctx.count('family:' + e.family)
         ctx.count('clauses-failed' if bad else 'clauses-ok')
+        ctx.count('input-grid:%s,%s' % ('regular' if e.input_grid.is_regular else 'separated' if e.input_grid.is_separated else 'unstructured',
+                                       'weights-not-yet-computed' if case.get('lazy_grid') else 'weights-materialised'))
         nontriv = 'out' in obs and any(maxabs(x) > 0 for x in obs['out'])
         ctx.case({k: case[k] for k in ('entry', 'kind', 'direction', 'wavelength')} if case['round'] == 0 else None,
                  nontrivial_key=(case['registry'], e.name, case['kind'], case['direction'], case['wavelength'], case['sparse']) if nontriv else None)
